@@ -446,16 +446,20 @@ func runWorkers(chk *Check, h *Harness, tier, work string) (*Result, int, error)
 					continue
 				}
 				// crashed: read progress
-				idx, prefix := readProgress(ws.out + ".progress")
+				idx, prefix, pclass := readProgress(ws.out + ".progress")
 				logb, _ := os.ReadFile(ws.out + ".log")
 				msg := tail(string(logb), 3000)
 				if ee, ok := err.(*exec.ExitError); ok && ee.ExitCode() == 3 {
 					return nil, n, fmt.Errorf("worker %d infrastructure error: %s", i, msg)
 				}
-				crashes = append(crashes, Violation{Property: chk.ID, Harness: h.Name, Tier: tier, Choices: prefix, Class: "crash",
+				ccls := "crash"
+				if pclass != "" {
+					ccls = "crash:" + pclass + ":" + panicFingerprint(msg)
+				}
+				crashes = append(crashes, Violation{Property: chk.ID, Harness: h.Name, Tier: tier, Choices: prefix, Class: ccls,
 					Message: "worker process died (" + err.Error() + "): " + firstLines(msg, 12), Crash: true})
 				restarts++
-				if restarts > 40 || idx < 0 {
+				if restarts > 3000 || idx < 0 {
 					finished[i] = true
 					running--
 					crashes[len(crashes)-1].Message += " [worker not restarted]"
@@ -548,28 +552,57 @@ func runWorkers(chk *Check, h *Harness, tier, work string) (*Result, int, error)
 	}
 	res.Distinct = int64(len(set))
 	if len(crashes) > 0 {
-		res.Done = false
-		res.Capped = "crash"
-		res.VioCounts["crash"] += int64(len(crashes))
+		// every crashed case was skipped individually and its worker restarted: the rest of the
+		// space was still explored; Capped records that crashes happened
+		if res.Capped == "" {
+			res.Capped = fmt.Sprintf("%d cases crashed their worker", len(crashes))
+		}
+		for _, cv := range crashes {
+			res.VioCounts[cv.Class]++
+		}
 		res.Violations = append(res.Violations, crashes...)
 	}
 	return res, n, nil
 }
 
-func readProgress(path string) (int64, []int) {
+func readProgress(path string) (int64, []int, string) {
 	b, err := os.ReadFile(path)
 	if err != nil {
-		return -1, nil
+		return -1, nil, ""
 	}
 	var p struct {
-		Index  int64 `json:"index"`
-		Prefix []int `json:"prefix"`
+		Index  int64  `json:"index"`
+		Prefix []int  `json:"prefix"`
+		Class  string `json:"class"`
 	}
 	line := strings.SplitN(string(b), "\n", 2)[0]
 	if json.Unmarshal([]byte(line), &p) != nil {
-		return -1, nil
+		return -1, nil, ""
 	}
-	return p.Index, p.Prefix
+	return p.Index, p.Prefix, p.Class
+}
+
+// panicFingerprint reduces the first "panic:" / "fatal error:" line of a crash log to letters
+// only, so that it names the kind of crash but not addresses or numbers.
+func panicFingerprint(log string) string {
+	for _, l := range strings.Split(log, "\n") {
+		if strings.HasPrefix(l, "panic:") || strings.HasPrefix(l, "fatal error:") {
+			var sb strings.Builder
+			for _, r := range l {
+				if (r >= 'a' && r <= 'z') || (r >= 'A' && r <= 'Z') {
+					sb.WriteRune(r)
+				} else if sb.Len() > 0 && !strings.HasSuffix(sb.String(), "-") {
+					sb.WriteByte('-')
+				}
+			}
+			f := strings.Trim(sb.String(), "-")
+			if len(f) > 60 {
+				f = f[:60]
+			}
+			return f
+		}
+	}
+	return "unknown"
 }
 
 func tail(s string, n int) string {
